@@ -629,5 +629,8 @@ func (g *G) scDelete() []Node {
 		V(o, ObjL(P("a", N(1)))),
 		Log(S("del-prop"), Un("delete", Dot(Id(o), "a")), Un("delete", Dot(Id(o), "a")), Bin("in", S("a"), Id(o))),
 		Log(S("del-builtin"), Un("delete", Dot(Id("Number"), "prototype")), Un("delete", Dot(Arr(), "length")), Un("delete", Dot(Id(f), "length")), Un("delete", Dot(Id(f), "prototype"))),
+		// bindings of global code (10.4.1, 10.5 with configurableBindings = false) are not deletable, by whatever route the program came in
+		Log(S("del-global"), Un("delete", Id(o)), Un("typeof", Id(o)), Un("delete", Id(f)), Un("typeof", Id(f)),
+			Dot(Meth(Id("Object"), "getOwnPropertyDescriptor", &This{}, S(o)), "configurable")),
 	}
 }
